@@ -2,6 +2,8 @@
    unlock machine and SignRawTx model (perfect-cryptography instance, Keys/Exec.v) and prints, for
    every O and S line,   kind \t hist \t model-outcome \t model-shape \t model-verified \t model-obs.
    argv: "zfix=0" / "pfix=0" / "sfix=0" / "nfix=0" select the models of the code as first found.
+   Lines MW / MO (harness/cmd/c05/manager.go, the keystore manager family) are replayed on the extracted
+   manager model (Keys/Manager.v, Keys/ExecManager.v), see below; "cfix=0" selects its variant.
    Trusted driver code: parsing, formatting; no model logic. *)
 let zfix = ref true
 let pfix = ref true
